@@ -123,3 +123,19 @@ package selftest
 
 //@ func orderDeferredBad
 //@   order cl_flushed_before_sync: s.cl.Flush before s.cl.Sync
+
+// events of package-level functions with a boolean verdict, branch events, alternatives, `return ok`
+//@ func verdictOK
+//@   order proof_before_frontier: selftest.checkProof before store s.frontier
+//@   order sync_or_first_before_frontier: s.tx.Sync | else(t.id > 0) before store s.frontier
+//@   order flush_or_nokey_before_frontier: s.cl.Flush | else(t.key != nil) before store s.frontier
+//@   order frontier_before_ok: store s.frontier before return ok
+
+//@ func verdictIgnored
+//@   order proof_before_frontier: selftest.checkProof before store s.frontier
+
+//@ func branchOffByOne
+//@   order sync_or_first_before_frontier: s.tx.Sync | else(t.id > 0) before store s.frontier
+
+//@ func okWithoutFrontier
+//@   order frontier_before_ok: store s.frontier before return ok
